@@ -83,6 +83,8 @@ use nv::{Case, CaseWriter, Obs, Outcome, Rng, errkind, guarded, hex, unhex};
 
 #[path = "../shared/c10_bridge.rs"]
 mod bridge;
+#[path = "../shared/c10_lazy.rs"]
+mod lazy;
 
 // ---------------------------------------------------------------------------------------------
 // Plain description of headers and records (what the generator produces and what both read
@@ -1809,6 +1811,9 @@ fn generate(rng: &mut Rng, tier: &str, w: &mut CaseWriter) {
 
     // --- `mr`: several records of one file read into reused buffers
     bridge::gen_mr(rng, tier, w);
+
+    // --- `lz`: the lazy bcf::Record accessors against NV.Bcf.Lazy and against the eager reader
+    lazy::gen_lz(rng, tier, w);
 }
 
 // ---------------------------------------------------------------------------------------------
@@ -2628,6 +2633,9 @@ fn run(c: &Case) -> Obs {
     }
     if c.kind == "mr" {
         return bridge::run_mr(c);
+    }
+    if c.kind == "lz" {
+        return lazy::run_lz(c);
     }
     if c.kind == "hxr" {
         return run_hxr(c);
